@@ -17,9 +17,11 @@ RULE = ('generated rules (stop_sequence at both levels, defaults inherited from 
 ASSUMPTIONS = ['the order clause is evaluated in application-level stop plans only (entry points of the Stopper '
                'observed by hooks) and for the processes that were running when the plan was built']
 FLOORS = {'quick': {'stop_emissions': 1500, 'sequenced_stop_emissions': 800, 'order_comparisons': 150,
-                    'closing_runs': 100, 'exactly_once_checks': 250, 'order_timing_checks': 250},
+                    'closing_runs': 100, 'exactly_once_checks': 250, 'order_timing_checks': 250,
+                    'hosts_of_a_copy_lost_while_its_application_is_stopped': 50},
           'thorough': {'stop_emissions': 40000, 'sequenced_stop_emissions': 20000, 'order_comparisons': 4000,
-                       'closing_runs': 2500, 'exactly_once_checks': 6000, 'order_timing_checks': 6000}}
+                       'closing_runs': 2500, 'exactly_once_checks': 6000, 'order_timing_checks': 6000,
+                       'hosts_of_a_copy_lost_while_its_application_is_stopped': 900}}
 COUNT = {'quick': 800, 'thorough': 16000}
 BUDGET_S = {'quick': 55, 'thorough': 540}
 
@@ -46,15 +48,29 @@ STUCK_KNOBS = {'stagger': [0.0, 1.0], 'n_min': 2, 'n_max': 4,
 STUCK_COUNT = {'quick': 240, 'thorough': 4000}
 
 
+# and a family where a process that runs on two instances (conflict left to the user) is being stopped with its
+# application, both copies slow to stop, when one of the two hosts is lost: the other copy is still to be waited for
+DUP_KNOBS = {'stagger': [0.0, 1.0], 'n_min': 3, 'n_max': 4,
+             'apps': {'n_apps': (1, 2), 'n_progs': (2, 4), 'seq_max': 3, 'startsecs': (0, 2), 'stopwaitsecs': (10, 25),
+                      'per_instance_diff': 0.0, 'managed_p': 1.0, 'autorestart': ('false',)},
+             'behaviours': ['stubborn', 'stubborn', 'slow_stop'], 'options': {'conciliation_strategy': 'USER'},
+             'actions': ['stop_duplicated_then_crash'], 'n_actions': [1], 'gaps': [30.0], 'closing_p': 0.0,
+             'fence': 'false', 'early_p': 0.0, 'dup_managed_only': True, 'settle_ticks': 40}
+DUP_COUNT = {'quick': 160, 'thorough': 3000}
+
+
 def plan(tier, seed):
     return [{'seed': seed * 1000003 + i} for i in range(COUNT[tier])] + \
-        [{'seed': seed * 1000003 + 700000 + i, 'family': 'stuck-stopping'} for i in range(STUCK_COUNT[tier])]
+        [{'seed': seed * 1000003 + 700000 + i, 'family': 'stuck-stopping'} for i in range(STUCK_COUNT[tier])] + \
+        [{'seed': seed * 1000003 + 600000 + i, 'family': 'duplicated-copy-lost-while-stopping'}
+         for i in range(DUP_COUNT[tier])]
 
 
 def run_case(case):
     tracker = Tracker()
     mon = StopSequenceMonitor(tracker)
-    run = Run(case, STUCK_KNOBS if case.get('family') == 'stuck-stopping' else KNOBS, [tracker, mon])
+    run = Run(case, {'stuck-stopping': STUCK_KNOBS, 'duplicated-copy-lost-while-stopping': DUP_KNOBS}.get(
+        case.get('family'), KNOBS), [tracker, mon])
     violations = run.execute()
     nontrivial = mon.counters.get('order_comparisons', 0) > 0 or mon.counters.get('closing_runs', 0) > 0
     return {'violations': violations, 'counters': run.counters,
